@@ -116,7 +116,14 @@ var (
 // SiblingRouters counts routers built inside a hostile container (reported as a workload class).
 var SiblingRouters atomic.Int64
 
-func SetCaseSalt(s uint64) { caseSalt.Store(s); envSeq.Store(0) }
+// Coin is a reproducible 1-in-n decision tied to the case (salt) and to how many decisions were taken before it.
+func Coin(n uint64) bool { return mix(caseSalt.Load()^0x5bd1e995+coinSeq.Add(1))%n == 0 }
+
+var coinSeq atomic.Uint64
+
+func SetCaseSalt(s uint64) {
+	coinSeq.Store(0)
+	caseSalt.Store(s); envSeq.Store(0) }
 
 func mix(x uint64) uint64 {
 	x += 0x9e3779b97f4a7c15
